@@ -309,7 +309,13 @@ impl Tracer {
                 *this = Self::Struct(tracer);
             }
             // TODO: check fields are equal
-            Self::Struct(_tracer) => {}
+            Self::Struct(tracer) => {
+                // a position seen both as a struct and as a map is traced as a map, independent
+                // of which sample came first
+                if let StructMode::Map = mode {
+                    tracer.mode = StructMode::Map;
+                }
+            }
             _ => fail!(
                 "Mismatched types: previous {:?}, current struct",
                 self.get_type()
